@@ -6,7 +6,7 @@ CONSTANTS
   Formats = {"pilosa","official"}
   MaxBatch = 2
   RowSizes = {0}
-  Alphabet = {"Add","Remove","AddN","RemoveN","ImportSet","ImportClear","Optimize","Reencode"}
+  Alphabet = {"Add","Remove","AddN","RemoveN","ImportSet","ImportClear","Optimize","Reencode","Hold"}
 INIT Init
 NEXT Next
 INVARIANT TypeOK
